@@ -375,11 +375,16 @@ def disable(e1, e2, e3, g1, g2, g3, v):
     es, gs = [e1, e2, e3], [g1, g2, g3]
     m = CLS()
 
+    kept = []
+
     def nest(j):
         if j == depth:
             return
         with V.disable_message_validation(ignore=gs[j]):
             inside_on = V._VALIDATION_ENABLED.get()
+            if j == depth - 1:
+                kept.append(read(m, "int8_arr"))     # an array handle obtained while validation is off, kept past the block
+                kept.append(read(m, "byte_arr"))
             nest(j + 1)
             if es[j]:
                 raise Boom()
@@ -395,9 +400,18 @@ def disable(e1, e2, e3, g1, g2, g3, v):
         assign(m, "int8", 128 + (v if 0 <= v <= 1000 else 0))
     except Exception:
         refused = True
+    # a handle obtained inside the block is used after it: execution is outside any disable block now
+    kept_refused = 0
+    for h, bad in zip(kept, (128, 256)):
+        try:
+            h[1] = bad + (v if 0 <= v <= 1000 else 0)
+        except Exception:
+            kept_refused += 1
     V._VALIDATION_ENABLED.set(True)
     if not on or not refused:
         return False, "validation is still off after the disable block(s) were left"
+    if kept_refused != len(kept):
+        return False, "an array handle obtained inside a disable block still accepts out-of-range values after the block was left"
     return True, ""
 
 
